@@ -1,6 +1,6 @@
 SPECIFICATION Spec
 CONSTANT W = 7
-CONSTANT Times = {30, 50}
+CONSTANT Times = {30, 50, 20000}
 CONSTANT Nows = {100, 103}
 CONSTANT MaxSteps = 5
 INVARIANT GivenIsVerbatim
